@@ -8,6 +8,11 @@ found by walking the ast of the CURRENT source:
     local variable - or an object shared between runs (a module/class-level container, or a construction executed at
     import time).  A shared default aliases the parameter's value (listParameter keeps the object), so one run's input
     becomes the next run's default.
+  * settings of the interpreter / of imported libraries written by the package (`mp.dps = ...`, `np.seterr(...)`,
+    `warnings.filterwarnings`, `os.environ[...] = `, `os.chdir`, `random.seed`, `sys.argv = ` ...): process-level state
+    too; harmless only when every run sets it, to an input-independent value, in its entry point (GEOPHIRESv3.main);
+  * every loop / comprehension whose iterable is a dict view (insertion-ordered) or a set expression (set literal,
+    set()/frozenset(), `a.keys() & b.keys()`, .intersection() ...): the order of a set of strings depends on the hash seed.
 Fail-closed: what is not recognised becomes DOther, which the Coq theorem rejects."""
 import ast
 import enum
@@ -108,15 +113,116 @@ def is_shared_object(obj):
     return isinstance(obj, (list, dict, set, bytearray, np.ndarray))
 
 
+SETTERS = {'np.seterr', 'np.seterrcall', 'np.random.seed', 'numpy.seterr', 'numpy.random.seed', 'random.seed',
+           'warnings.filterwarnings', 'warnings.simplefilter', 'os.chdir', 'os.putenv', 'locale.setlocale', 'logging.disable',
+           'decimal.setcontext', 'jsons.suppress_warnings', 'sys.setrecursionlimit', 'matplotlib.use', 'plt.switch_backend',
+           'pd.set_option', 'np.set_printoptions', 'mp.prec', 'mpmath.mp.prec'}
+ENTRY_POINTS = {('GEOPHIRESv3', 'main')}
+SET_METHODS = {'intersection', 'union', 'difference', 'symmetric_difference'}
+
+
+def imported_names(tree, stem=None):
+    out = set()
+    for n in tree.body:
+        if isinstance(n, ast.Import):
+            out |= {(a.asname or a.name).split('.')[0] for a in n.names}
+        elif isinstance(n, ast.ImportFrom):
+            for a in n.names:
+                if a.name == '*' and stem is not None and n.level == 0:   # star import: what the module exports
+                    src = importlib.import_module(n.module)
+                    out |= set(getattr(src, '__all__', [k for k in vars(src) if not k.startswith('_')]))
+                elif a.name != '*':
+                    out.add(a.asname or a.name)
+    return out
+
+
+def input_independent(nodes):
+    return not any(isinstance(n, ast.Name) and n.id in ('self', 'model') for e in nodes for n in ast.walk(e))
+
+
+def module_of(stem):
+    return importlib.import_module(f'{PKG}.{stem}')
+
+
+def unknown_to_its_owner(module, target, trees):
+    """the assigned attribute does not exist on the imported object (so the library does not know it) and the package
+    never reads it"""
+    try:
+        owner = eval(compile(ast.Expression(target.value), '<owner>', 'eval'), vars(module))   # noqa: S307 (source under test)
+    except Exception:
+        return False
+    text = ast.unparse(target)
+    read = any(isinstance(n, ast.Attribute) and isinstance(n.ctx, ast.Load) and ast.unparse(n) == text
+               for tree in trees for n in ast.walk(tree))
+    return not hasattr(owner, target.attr) and not read
+
+
+def settings_of(stem, tree, trees=()):
+    """writes to process-level settings: (description, harmless?)"""
+    imported = imported_names(tree, stem)
+    out = []
+    for fn in [n for n in ast.walk(tree) if isinstance(n, (ast.FunctionDef, ast.AsyncFunctionDef))]:
+        entry = (stem, fn.name) in ENTRY_POINTS
+        for n in ast.walk(fn):
+            if isinstance(n, (ast.Assign, ast.AugAssign)):
+                for t in (n.targets if isinstance(n, ast.Assign) else [n.target]):
+                    root = root_name(t)
+                    if isinstance(t, (ast.Attribute, ast.Subscript)) and root in imported:
+                        ok = entry and input_independent([n.value])
+                        if not ok and isinstance(t, ast.Attribute) and unknown_to_its_owner(module_of(stem), t, trees):
+                            ok = True   # a NEW attribute hung on an imported object that nothing ever reads: no channel
+                        out.append((f'{fn.name}: {ast.unparse(t)[:50]} = ...', ok))
+            elif isinstance(n, ast.Call) and ast.unparse(n.func) in SETTERS:
+                out.append((f'{fn.name}: {ast.unparse(n)[:60]}', entry and input_independent(n.args + [k.value for k in n.keywords])))
+    return out
+
+
+def set_like(e):
+    """'set' | 'view' | None for an iterable expression"""
+    if isinstance(e, (ast.Set, ast.SetComp)):
+        return 'set'
+    if isinstance(e, ast.Call):
+        name = last_name(e.func)
+        if isinstance(e.func, ast.Name) and name in ('set', 'frozenset'):
+            return 'set'
+        if isinstance(e.func, ast.Attribute) and name in SET_METHODS:
+            return 'set'
+        if isinstance(e.func, ast.Attribute) and name in ('keys', 'items', 'values') and not e.args:
+            return 'view'
+        if isinstance(e.func, ast.Name) and name in ('sorted', 'list', 'tuple', 'enumerate', 'reversed') and e.args:
+            inner = set_like(e.args[0])
+            return None if name == 'sorted' else inner
+    if isinstance(e, ast.BinOp) and isinstance(e.op, (ast.BitAnd, ast.BitOr, ast.BitXor, ast.Sub)) \
+            and (set_like(e.left) or set_like(e.right)):
+        return 'set'
+    return None
+
+
+def iterations_of(tree):
+    out = []
+    for fn in [n for n in ast.walk(tree) if isinstance(n, (ast.FunctionDef, ast.AsyncFunctionDef))]:
+        for n in ast.walk(fn):
+            iters = [n.iter] if isinstance(n, (ast.For, ast.AsyncFor)) else \
+                [g.iter for g in n.generators] if isinstance(n, (ast.ListComp, ast.SetComp, ast.DictComp, ast.GeneratorExp)) else []
+            for it in iters:
+                k = set_like(it)
+                if k:
+                    out.append((fn.name, ast.unparse(it)[:70], 'ISet' if k == 'set' else 'IDictView'))
+    return out
+
+
 def scan():
     importlib.import_module(f'{PKG}.Model')   # circular import: Model first
     files = sorted((fw.SRC / PKG).glob('*.py'))
     trees = {p: ast.parse(p.read_text(encoding='UTF-8')) for p in files}
-    state, defaults, n_const = [], [], 0
+    state, defaults, n_const, iters = [], [], 0, []
     for path, tree in trees.items():
         if path.stem == '__main__':
             continue            # a script: its module level is the body of one command-line run
         mod = f'{PKG}.{path.stem}'
+        for what, ok in settings_of(path.stem, tree, list(trees.values())):
+            state.append((f'{mod}:{what}', 'SProcessSetting', True, ok))
+        iters += [(f'{mod}:{fn}', expr, kind) for fn, expr, kind in iterations_of(tree)]
         # containers created at import
         for holder, body in [(None, tree.body)] + [(n, n.body) for n in tree.body if isinstance(n, ast.ClassDef)]:
             for node in body:
@@ -159,12 +265,12 @@ def scan():
                                 defaults.append((f'{mod}:{name}:{kw.arg}', ast.unparse(kw.value)[:70], kind))
                 visit(child, fn, at_import)
         visit(tree, None, True)
-    return state, defaults, n_const
+    return state, defaults, n_const, sorted(set(iters))
 
 
 def gen_state_table(ctx):
-    state, defaults, n_const = scan()
-    if not defaults:
+    state, defaults, n_const, iters = scan()
+    if not defaults or not iters:
         raise ValueError('no Parameter construction found: the scan no longer recognises the source')
     srows = [f'  mkSE {qconv.coq_string(n)} {k} {qconv.blit(m)} {qconv.blit(memo)}' for n, k, m, memo in state]
     drows = [f'  mkPD {qconv.coq_string(w)} {qconv.coq_string(e)} {k}' for w, e, k in defaults]
@@ -174,6 +280,8 @@ def gen_state_table(ctx):
             'Definition c08_state_table : list state_entry := [\n' + ';\n'.join(srows) + '\n].\n'
             f'(* {n_const} further DefaultValue= / value= arguments are plain constants *)\n'
             f'Definition c08_constant_defaults : N := {n_const}%N.\n'
-            'Definition c08_param_defaults : list param_default := [\n' + ';\n'.join(drows) + '\n].\n')
+            'Definition c08_param_defaults : list param_default := [\n' + ';\n'.join(drows) + '\n].\n'
+            'Definition c08_iterations : list iteration := [\n' +
+            ';\n'.join(f'  mkIT {qconv.coq_string(w)} {qconv.coq_string(e)} {k}' for w, e, k in iters) + '\n].\n')
     fw.write_if_changed(fw.COQ / 'Gen' / 'C08StateTable.v', text)
     return state, defaults
